@@ -248,21 +248,26 @@ func FuzzBST(f *testing.F) {
 	})
 }
 
-// runIdentity: values with identity (pointers). Every Upsert stores a fresh pointer whose pointee
+// runIdentity: values with identity (pointers) held in an interface-typed tree, a quarter of the
+// values being the nil interface (a legitimate value: the key is present, its value is nil). Every Upsert stores a fresh pointer whose pointee
 // is drawn from {0,1}, so most overwrites replace a value by a distinct one with equal contents;
 // Get and Traverse must hand back the very pointer upserted last (an ordered MAP returns the value
 // stored last - a store skipped because the contents "did not change" keeps the older one, which
 // the caller can tell apart as soon as it mutates or compares the pointee's address).
 func runIdentity(w *core.Worker, c Case) {
-	t := bstree.New[int, *int](func(a, b int) bool { return a < b })
-	model := map[int]*int{}
+	t := bstree.New[int, any](func(a, b int) bool { return a < b })
+	model := map[int]any{}
 	overwrites := 0
 	for i, op := range c.Ops {
 		var p any
 		switch op.K {
 		case "U":
-			v := new(int)
-			*v = (op.Key + i/7) % 2
+			pv := new(int)
+			*pv = (op.Key + i/7) % 2
+			var v any = pv
+			if (op.Key+i)%4 == 0 {
+				v = nil // the nil interface is a value like any other: present, with value nil
+			}
 			p = core.Catch(func() { t.Upsert(op.Key, v) })
 			if _, ok := model[op.Key]; ok {
 				overwrites++
@@ -281,12 +286,12 @@ func runIdentity(w *core.Worker, c Case) {
 			it, err := t.Get(k)
 			mv, ok := model[k]
 			if ok != (err == nil) || (ok && it.Val != mv) {
-				w.Violation("bst.identity-get", fmt.Sprintf("pointer values, after step %d (%+v): Get(%d) = (%p, %v), the pointer upserted last is %p (present=%v)", i, op, k, it.Val, err, mv, ok))
+				w.Violation("bst.identity-get", fmt.Sprintf("pointer values, after step %d (%+v): Get(%d) = (%v, %v), the pointer upserted last is %v (present=%v)", i, op, k, it.Val, err, mv, ok))
 				return
 			}
 		}
 		n, bad := 0, false
-		t.Traverse(func(it bstree.Item[int, *int]) {
+		t.Traverse(func(it bstree.Item[int, any]) {
 			n++
 			if mv, ok := model[it.Key]; !ok || mv != it.Val {
 				bad = true
